@@ -51,6 +51,8 @@ MANIFEST = dict(
 SEMANTIC = ('R20.gen', 'R20.isplit', 'R20.null', 'R20.zero', 'R20.perm', 'R20.pmap',
             # decided by term equality on the evaluated element / range terms; they give "not recognised" themselves
             'R20.split::esutil.numpy_util.splitarray::consecutive-fixed-size-slices', 'R20.split::esutil.numpy_util.splitarray::chunk-count-is-ceil',
+            # decided by solving the tests that lead to the return over a case split of all (size, nper)
+            'R20.split::esutil.numpy_util.splitarray::early-return-is-the-chunk-list',
             'R20.sort::esutil.algorithm._quicksort::recursion', 'R20.sort::esutil.algorithm._quicksort_keyvalue::recursion',
             # decided by solving the tests that lead around the work call (linear constraints on the number of elements, positions compared)
             'R20.sort::esutil.algorithm.quicksort::sorts-unless-nothing-to-do', 'R20.sort::esutil.algorithm.quicksort_keyvalue::sorts-unless-nothing-to-do',
@@ -920,6 +922,7 @@ class _Par:
         self.visited = []       # helper functions that were followed
         self.exec_params = []   # (helper, parameter) that receives the executor
         self.inside = inside    # ids of the nodes inside the executor's with-block (frames marked top)
+        self.drawn = []         # Name nodes of the top frame through which the iterable flows into the result
         self.depth = 0
 
     # -- helpers --------------------------------------------------------
@@ -994,6 +997,8 @@ class _Par:
             return self.special[id(e)]
         if isinstance(e, ast.Name):
             if e.id in fr.env:
+                if fr.top and fr.env[e.id] is not None and fr.env[e.id][0] == "iterable":
+                    self.drawn.append(e)    # the place where the result draws from the iterable as it was passed
                 return fr.env[e.id]
             defs = fr.resolve(e.id, at)
             if not defs:
@@ -1489,6 +1494,178 @@ class _Range:
         return None
 
 
+# ---------------------------------------------------------------------------
+# R20.pmap ...::iterable-drawn-once.  The items may come from a one-shot iterator (a generator, a map object): whatever iterates
+# the iterable before the executor draws from it leaves nothing to be mapped.  Every place that reads the iterable as it was
+# passed (the parameter binding, iter() of it, single-assignment aliases; lazy wrappers such as enumerate / zip / a generator
+# expression stand for what they wrap) is classified: harmless (len, type tests, identity / truth tests), the executor's draw
+# (the place the result analysis followed, or an expression that hands it to a method of the executor), consuming (a for
+# statement, a list / set / dict comprehension, a builtin that runs through its argument, `in`, unpacking, a package helper that
+# does one of these), or not recognised.  A consuming use from which the executor's draw can still be reached is a violation.
+_DRAINS = ("list", "tuple", "sorted", "sum", "max", "min", "any", "all", "set", "frozenset", "dict", "next", "deque", "Counter",
+           "array", "asarray", "fromiter", "join", "reduce", "bytes", "bytearray", "OrderedDict", "fsum", "prod", "mean")
+_WRAPS = ("iter", "enumerate", "zip", "map", "filter", "islice", "chain", "tee", "starmap", "zip_longest", "takewhile", "dropwhile")
+
+
+def _own_exprs(n):
+    """the expressions a CFG node evaluates itself"""
+    a = n.ast
+    if a is None:
+        return []
+    if n.kind == "branch":
+        return [a.test]
+    if n.kind == "loop":
+        return [a.test] if isinstance(a, ast.While) else [a.iter, a.target]
+    if n.kind == "with":
+        return [x for i in a.items for x in (i.context_expr, i.optional_vars) if x is not None]
+    if n.kind == "handler":
+        return [a.type] if a.type is not None else []
+    if n.kind in ("stmt", "return", "raise"):
+        return [a]
+    return []
+
+
+def _drawn_once(chk, repo, fi, cfg, view, rin, pit, ex, par, w):
+    fn = fi.node
+    q = fi.qualname
+    pm = _parent_map(fn)
+    sd = rules.single_defs(fn)
+    node_of = {}
+    for n in cfg.nodes:
+        for r_ in _own_exprs(n):
+            for x in ast.walk(r_):
+                node_of.setdefault(id(x), n)
+    own = {id(x) for x in walk_no_nested(fn)}
+
+    def is_src(v):
+        while isinstance(v, ast.Call) and isinstance(v.func, ast.Name) and v.func.id == "iter" and len(v.args) == 1 and not v.keywords:
+            v = v.args[0]
+        return isinstance(v, ast.Name) and v.id == pit
+    aliases = {pit} | {k for k, v in sd.items() if k != pit and k not in func_params(fn) and is_src(v)}
+    drawn = {id(x) for x in par.drawn}
+
+    def has_exec_call(node):
+        return any(isinstance(c, ast.Call) and isinstance(c.func, ast.Attribute) and isinstance(c.func.value, ast.Name) and c.func.value.id == ex
+                   for c in ast.walk(node))
+
+    def classify(x):
+        """('harmless' | 'draw' | 'drain' | 'unknown', the expression or statement that does it)"""
+        u = x
+        for _ in range(12):
+            p = pm.get(id(u))
+            if isinstance(p, ast.keyword):
+                kw_, p = p, pm.get(id(p))
+            if isinstance(p, ast.Starred):
+                gp = pm.get(id(p))
+                return ("draw" if isinstance(gp, ast.Call) and has_exec_call(gp) else "drain"), (gp if gp is not None else p)
+            if isinstance(p, ast.comprehension):
+                comp = pm.get(id(p))
+                if p.iter is not u or comp is None:
+                    return "unknown", p
+                if has_exec_call(comp):
+                    return "draw", comp
+                if isinstance(comp, ast.GeneratorExp):
+                    u = comp            # lazy: what happens to the generator expression happens to the iterable
+                    continue
+                return "drain", comp
+            if isinstance(p, ast.For) and p.iter is u:
+                return ("draw" if has_exec_call(p) else "drain"), p
+            if isinstance(p, ast.Call) and u is not p.func:
+                f = p.func
+                if isinstance(f, ast.Attribute) and isinstance(f.value, ast.Name) and f.value.id == ex:
+                    return "draw", p
+                if isinstance(f, ast.Name) and f.id not in sd and f.id not in func_params(fn):
+                    if f.id in _HARMLESS or f.id == "getattr":
+                        return "harmless", p
+                    if f.id in _DRAINS:
+                        return "drain", p
+                    if f.id in _WRAPS:
+                        u = p
+                        continue
+                if call_name(p) in _DRAINS and isinstance(f, ast.Attribute) and not (isinstance(f.value, ast.Name) and f.value.id in aliases):
+                    return "drain", p   # np.array(x), "".join(x), collections.deque(x), functools.reduce(f, x)
+                if call_name(p) in _WRAPS and isinstance(f, ast.Attribute):
+                    u = p
+                    continue
+                g = _callee(repo, fi, p)
+                if g is not None and isinstance(x, ast.Name) and u is x:
+                    if g.qualname in ("esutil.pbar.pbar", "esutil.pbar.PBar", "esutil.pbar.sbar", "esutil.pbar._pbar_full"):
+                        u = p           # the progress wrapper is lazy (R20.gen)
+                        continue
+                    role = _role(g, p, x.id)
+                    if role is not None and not rules.is_generator(g.node):
+                        bad, unknown = _iterable_uses(repo, g, role)
+                        if bad:
+                            return "drain", p
+                        if not unknown:
+                            return "harmless", p
+                return "unknown", p
+            if isinstance(p, ast.Compare):
+                ops = [type(o) for o in p.ops]
+                if any(o in (ast.In, ast.NotIn) for o in ops):
+                    return ("drain" if u is not p.left else "harmless"), p
+                return "harmless", p
+            if isinstance(p, (ast.BoolOp, ast.If, ast.While)) or (isinstance(p, ast.UnaryOp) and isinstance(p.op, ast.Not)) \
+                    or (isinstance(p, ast.IfExp) and p.test is u) or isinstance(p, ast.Assert):
+                return "harmless", p
+            if isinstance(p, ast.Attribute):
+                gp = pm.get(id(p))
+                return ("unknown" if isinstance(gp, ast.Call) and gp.func is p else "harmless"), p
+            if isinstance(p, ast.Assign) and p.value is u and len(p.targets) == 1 and isinstance(p.targets[0], ast.Name) and p.targets[0].id in aliases \
+                    and (p.targets[0].id != pit or is_src(u)):
+                return "harmless", p    # the alias itself; its uses are classified where they are
+            if isinstance(p, ast.YieldFrom):
+                return "drain", p
+            return "unknown", (p if p is not None else u)
+        return "unknown", u
+
+    # the definitions of the name that still stand for the iterable as it was passed: the parameter, and `iterable = iter(iterable)`
+    same, grown = {cfg.entry.id}, True
+    while grown:
+        grown = False
+        for n in cfg.nodes:
+            if n.kind == "stmt" and n.id not in same and _same_stream(n.ast, pit) and same & set(rin.get(n.id, {}).get(pit) or ()):
+                same.add(n.id)
+                grown = True
+    draws, drains, unknown = [], [], []
+    for x in ast.walk(fn):
+        if not (isinstance(x, ast.Name) and x.id in aliases and isinstance(x.ctx, ast.Load)):
+            continue
+        if id(x) not in own:
+            unknown.append("use inside a nested function (line %s)" % x.lineno)
+            continue
+        n = node_of.get(id(x))
+        if n is None:
+            unknown.append("`%s`" % norm(pm.get(id(x), x))[:60])
+            continue
+        if x.id == pit and not (same & set(rin.get(n.id, {}).get(pit) or ())):
+            continue                    # another binding of the name: not the iterable as it was passed
+        kind, what = ("draw", x) if id(x) in drawn else classify(x)
+        if kind == "draw":
+            draws.append((n, what))
+        elif kind == "drain":
+            drains.append((n, what))
+        elif kind == "unknown":
+            unknown.append("`%s`" % norm(what)[:60])
+    early = [(n, what, dn, dwhat) for n, what in drains for dn, dwhat in draws if n is not dn and view.reaches(n, dn)]
+    if early:
+        n, what, dn, dwhat = early[0]
+        chk.ob("R20.pmap", q + "::iterable-drawn-once", False, fi.where(what if hasattr(what, "lineno") else None),
+               "nothing runs through the iterable before the executor draws from it: `%s` iterates `%s` and `%s` (line %s) draws from it afterwards -- a one-shot "
+               "iterator (generator, map object, iter(list)) arrives there exhausted and pmap returns a shorter list than list(map(fn, items))"
+               % (norm(what)[:80], pit, norm(pm.get(id(dwhat), dwhat) if isinstance(dwhat, ast.Name) else dwhat)[:60], dn.lineno))
+        return
+    samenode = [what for n, what in drains for dn, _ in draws if n is dn]
+    if not draws:
+        # the executor draws from something else (a container the items were put into): one pass over the iterable is all there is
+        ok = True if (len(drains) <= 1 and not unknown) else None
+    else:
+        ok = None if (unknown or samenode) else True
+    chk.ob("R20.pmap", q + "::iterable-drawn-once", ok, fi.where(w),
+           "nothing runs through the iterable before the executor draws from it (items given as a one-shot iterator are all still there) %s"
+           % (unknown + ["`%s`" % norm(x)[:60] for x in samenode] + (["%d passes over it" % len(drains)] if not draws else []) if ok is None else ""))
+
+
 def pmap(chk, repo):
     fi = repo.func("esutil.pbar.pmap")
     chk.analysed_unit(fi.qualname)
@@ -1615,6 +1792,7 @@ def pmap(chk, repo):
     chk.ob("R20.pmap", q + "::returns-that-list", None if (okt and res is None) else okt, fi.where(), "that list is returned unmodified on every path")
     srt = [norm(x) for g in scope for x in walk_no_nested(g.node) if isinstance(x, ast.Call) and call_name(x) in _REORDER]
     chk.ob("R20.pmap", q + "::no-reordering", not srt, fi.where(), "nothing reorders or de-duplicates the results (%s)" % srt)
+    _drawn_once(chk, repo, fi, cfg, cfg.view(), rin, pit, ex, par, w)
 
 
 # ---------------------------------------------------------------------------
@@ -2532,6 +2710,7 @@ def _sort_ranges(fi, part, nargs):
     if not (_teq(sx.ev(pc.args[nargs]), S) is True and _teq(sx.ev(pc.args[nargs + 1]), E) is True):
         return False, norm(pc)
     handed = []
+    skips = []
     for b in block[k + 1:]:
         if isinstance(b, ast.Expr) and isinstance(b.value, ast.Call) and call_name(b.value) == fi.name and isinstance(b.value.func, ast.Name):
             c = b.value
@@ -2554,12 +2733,22 @@ def _sort_ranges(fi, part, nargs):
             if b.targets[0].id == split:
                 return None, "split point re-bound"
             sx.env[b.targets[0].id] = sx.ev(b.value)
+            sx.env.pop("[]" + b.targets[0].id, None)
+            if isinstance(b.value, ast.Subscript) and isinstance(b.value.value, ast.Name) and b.value.value.id in arrs and not isinstance(b.value.slice, ast.Slice) \
+                    and _teq(sx.ev(b.value.slice), P) is True:
+                sx.env["[]" + b.targets[0].id] = (b.value.value.id, "split")      # the pivot's key (or payload) kept in a local
         elif isinstance(b, ast.AugAssign) and isinstance(b.target, ast.Name):
             sx.env[b.target.id] = sx.binop(ast.BinOp(left=b.target, op=b.op, right=b.value), sx.ev(b.target), sx.ev(b.value))
         elif isinstance(b, (ast.Pass,)) or (isinstance(b, ast.Expr) and isinstance(b.value, ast.Constant)) or (isinstance(b, ast.Return) and b.value is None) \
                 or isinstance(b, ast.Continue):
             if isinstance(b, (ast.Return, ast.Continue)):
                 break
+        elif isinstance(b, ast.While):
+            # a bound that walks away from the split point while the element it stands on is the pivot again
+            v, why = _skips_pivot_keys(b, sx, arrs, P, len(skips))
+            if v is not True:
+                return v, why
+            skips.append(sx.env[why].free_symbols - {S, E, P})
         else:
             return None, "unrecognised statement `%s` after the partition" % norm(b)[:60]
     if isinstance(owner, ast.While) and block is owner.body and not (block and isinstance(block[-1], ast.Return)):
@@ -2574,11 +2763,96 @@ def _sort_ranges(fi, part, nargs):
     text = ", ".join("[%s, %s]" % (a, b) for a, b in handed)
     if len(handed) != 2:
         return False, text
-    for perm in (handed, handed[::-1]):
+    # positions left out because their key was found equal to the pivot's are in their final place: such a range stands for the
+    # full one (the number of positions skipped, a symbol >= 0, set to 0)
+    zero = {y: 0 for x in skips for y in x}
+    full = [tuple(sp.expand(t.subs(zero)) for t in r) for r in handed] if zero else handed
+    for perm in (full, full[::-1]):
         rs = [_teq(perm[i][j], want[i][j]) for i in range(2) for j in range(2)]
         if all(r is True for r in rs):
             return True, text
+    if zero and any(t.free_symbols & set(zero) for r in handed for t in r):
+        for perm in (full, full[::-1]):
+            d = [sp.expand(perm[i][0] - want[i][0]) for i in range(2)] + [sp.expand(want[i][1] - perm[i][1]) for i in range(2)]
+            if all(x.is_Integer and x >= 0 for x in d):
+                return False, text + " (a range is narrower than the positions whose keys were found equal to the pivot's allow)"
+        return None, text + " (bounds moved over keys equal to the pivot's, used in a way that is not recognised)"
     return (False if all(_known(a) and _known(b) for a, b in handed) else None), text
+
+
+def _skips_pivot_keys(loop, sx, arrs, P, k):
+    """`while <...> and K[i] == K[split]: i = i -/+ 1` with i standing next to the split point on the side it walks away to: the
+    positions passed hold keys equal to the pivot's, which the partition left in their final place, so the range that ends at i is as
+    good as the one that ends next to the split.  K must be the array the order is defined on (the first one): equal payload
+    values say nothing about the keys.  (True, name of i) with sx.env[i] moved by a fresh symbol; (False | None, why) otherwise"""
+    txt = "`while %s`" % norm(loop.test)[:70]
+    body = [s_ for s_ in loop.body if not _isdoc(s_) and not isinstance(s_, ast.Pass)]
+    if loop.orelse or len(body) != 1:
+        return None, "unrecognised loop %s after the partition" % txt
+    st = body[0]
+    if isinstance(st, ast.Assign) and len(st.targets) == 1 and isinstance(st.targets[0], ast.Name):
+        i, new = st.targets[0].id, st.value
+    elif isinstance(st, ast.AugAssign) and isinstance(st.target, ast.Name):
+        i, new = st.target.id, ast.BinOp(left=ast.Name(id=st.target.id, ctx=ast.Load()), op=st.op, right=st.value)
+    else:
+        return None, "unrecognised loop %s after the partition" % txt
+    cur = sx.env.get(i)
+    if not isinstance(cur, sp.Basic) or not _known(cur):
+        return None, "loop %s over a bound that is not recognised" % txt
+    I = sp.Symbol("@" + i, integer=True)
+    step = sp.expand(_Sx(dict(sx.env, **{i: I})).ev(new) - I)
+    if step not in (sp.Integer(1), sp.Integer(-1)) or _teq(cur, P + step) is not True:
+        return None, "loop %s does not walk away from the split point one position at a time" % txt
+    if any(isinstance(x, (ast.NamedExpr, ast.Call, ast.Await, ast.Yield, ast.Lambda)) for x in ast.walk(loop.test)):
+        return None, "loop %s: test not recognised" % txt
+    conj = loop.test.values if (isinstance(loop.test, ast.BoolOp) and isinstance(loop.test.op, ast.And)) else [loop.test]
+
+    def element(e):
+        """(array, 'i' | 'split') for A[i] / A[<the split point>], A one of the arrays being sorted"""
+        if isinstance(e, ast.Subscript) and isinstance(e.value, ast.Name) and e.value.id in arrs and not isinstance(e.slice, ast.Slice):
+            if isinstance(e.slice, ast.Name) and e.slice.id == i:
+                return e.value.id, "i"
+            if _teq(sx.ev(e.slice), P) is True:
+                return e.value.id, "split"
+            return e.value.id, None
+        if isinstance(e, ast.Name) and isinstance(sx.env.get("[]" + e.id), tuple):
+            return sx.env["[]" + e.id]
+        return None
+    good, wrong, unclear = [], [], []
+    for c in conj:
+        reads = [x for x in ast.walk(c) if (isinstance(x, ast.Subscript) and isinstance(x.value, ast.Name) and x.value.id in arrs)
+                 or (isinstance(x, ast.Name) and ("[]" + x.id) in sx.env)]
+        if not reads:
+            continue                    # a test on positions only: it can only stop the walk earlier
+        if not (isinstance(c, ast.Compare) and len(c.ops) == 1):
+            unclear.append(c)
+            continue
+        a, b_ = element(c.left), element(c.comparators[0])
+        op = type(c.ops[0])
+        if a is None or b_ is None or a[1] is None or b_[1] is None or {a[1], b_[1]} != {"i", "split"}:
+            unclear.append(c)
+            continue
+        if a[1] == "split":
+            a, b_ = b_, a
+            op = {ast.Lt: ast.Gt, ast.Gt: ast.Lt, ast.LtE: ast.GtE, ast.GtE: ast.LtE}.get(op, op)
+        if a[0] != b_[0]:
+            wrong.append("`%s` compares an element of %s with the pivot's place in %s" % (norm(c), a[0], b_[0]))
+        elif a[0] != arrs[0]:
+            wrong.append("`%s` compares the entries of %s, which are carried along, not the keys %s the order is defined on: positions with an equal %s entry but a "
+                         "smaller or larger key are left out of the range and stay unsorted" % (norm(c), a[0], arrs[0], a[0]))
+        elif op is ast.Eq:
+            good.append(c)
+        elif (op is ast.GtE and step == -1) or (op is ast.LtE and step == 1):
+            unclear.append(c)           # equality, given what the partition guarantees for that side: not taken for granted here
+        else:
+            wrong.append("`%s` passes over positions whose key was not found equal to the pivot's" % norm(c))
+    if good:
+        # further conjuncts can only stop the walk earlier
+        sx.env[i] = cur + step * sp.Symbol("skipped%d" % (k + 1), integer=True, nonnegative=True)
+        return True, i
+    if wrong:
+        return False, "the range handed on is narrowed by %s, but %s" % (txt, wrong[0])
+    return None, "loop %s: test not recognised" % txt
 
 
 def _worklist(fn, pm, w, st, lo, hi, after):
@@ -4256,8 +4530,247 @@ def _nonzero_test(t, sx, neg=False):
     return (v, True) if isinstance(v, sp.Basic) else None
 
 
-def _ceil_count(count, fi, size, nper):
-    """is the loop count ceil(size / nper)?  True / False / None"""
+# ---------------------------------------------------------------------------
+# R20.split ...::early-return-is-the-chunk-list.  `return [var]` is the chunk list exactly when 0 < size <= nper, `return []` exactly
+# when size == 0.  The tests that lead to such a return are read as a formula over integer terms in size, nper, size // nper and
+# size % nper (names followed through the definition that reaches the test).  All inputs are covered by six cases: with
+# size = q*nper + r, 0 <= r < nper, nper >= 1:  q = 0 | q = 1 | q >= 2, each with r = 0 | r > 0.  In a case every term is affine in
+# nper, r (and, for q >= 2, q and the surplus e = (q-2)*nper >= 0, taken as free non-negative unknowns), so the minimum and the maximum of
+# each comparison's difference over the case are read off its vertex and rays: the comparison holds for every input of the case,
+# for none, or is undecided.  Violation: a case (with size > 0) all of whose inputs satisfy the path's tests and none the requirement.
+# Held: in every case some test fails for all inputs or the requirement holds for all.  Anything else: no verdict.
+_CN, _CR, _CQ, _CE = sp.Symbol("N_"), sp.Symbol("r_"), sp.Symbol("q_"), sp.Symbol("e_")
+_CASES = [(qk, rk) for qk in (0, 1, 2) for rk in (0, 1)]
+
+
+def _case_text(c):
+    return "%s and %s" % (("size // nper == %d" % c[0]) if c[0] < 2 else "size // nper >= 2", "size %% nper %s 0" % ("==" if c[1] == 0 else "!="))
+
+
+def _case_bounds(t, size, nper, case):
+    """(min, max) of the integer term t over the inputs of the case, +-inf allowed; None if t is not affine there"""
+    qk, rk = case
+    r = _CR if rk else sp.Integer(0)
+    qq = sp.Integer(qk) if qk < 2 else _CQ
+    sz = (qk * _CN + r) if qk < 2 else (2 * _CN + r + _CE)
+    try:
+        t = sp.sympify(t)
+        t = t.replace(_fdiv, lambda a, b: qq if (a == size and b == nper) else _fdiv(a, b))
+        t = t.replace(_fmod, lambda a, b: r if (a == size and b == nper) else _fmod(a, b))
+        t = t.replace(_cdiv, lambda a, b: (qq + (1 if rk else 0)) if (a == size and b == nper) else _cdiv(a, b))
+        t = sp.expand(t.subs({size: sz, nper: _CN}))
+        p_ = sp.Poly(t, _CN, _CR, _CQ, _CE)
+    except Exception:
+        return None
+    if p_.total_degree() > 1 or (t.free_symbols - {_CN, _CR, _CQ, _CE}):
+        return None
+    co = {v: p_.coeff_monomial(v) for v in (_CN, _CR, _CQ, _CE)}
+    a = p_.coeff_monomial(1)
+    if not all(x.is_Rational for x in list(co.values()) + [a]):
+        return None
+
+    def low(a, b, c, d, f):
+        """minimum of a + b*N + c*r + d*q + f*e"""
+        m = a
+        if rk:                          # N >= 2, 1 <= r <= N-1: vertex (2, 1), rays (1, 0) and (1, 1)
+            if b < 0 or b + c < 0:
+                return -_INF
+            m += 2 * b + c
+        else:                           # N >= 1
+            if b < 0:
+                return -_INF
+            m += b
+        if qk == 2:
+            if d < 0 or f < 0:
+                return -_INF
+            m += 2 * d
+        return m
+    args = (a, co[_CN], co[_CR], co[_CQ], co[_CE])
+    lo = low(*args)
+    hi = low(*[-x for x in args])
+    return lo, (-hi if hi != -_INF else _INF)
+
+
+def _case_literal(op, d, size, nper, case):
+    """truth of `d <op> 0` over the case: True (all inputs) / False (none) / None"""
+    b = _case_bounds(d, size, nper, case)
+    if b is None:
+        return None
+    lo, hi = b
+    if op == "<=":
+        return True if hi <= 0 else (False if lo > 0 else None)
+    if op == "<":
+        return True if hi < 0 else (False if lo >= 0 else None)
+    if op == "==":
+        return True if lo == hi == 0 else (False if (lo > 0 or hi < 0) else None)
+    if op == "!=":
+        r = _case_literal("==", d, size, nper, case)
+        return None if r is None else (not r)
+    return None
+
+
+def _dnf(t, neg, lit):
+    """disjunctive form (list of conjunctions of literals) of the test t (negated if neg); lit(expr, neg) -> literal or None"""
+    if isinstance(t, ast.UnaryOp) and isinstance(t.op, ast.Not):
+        return _dnf(t.operand, not neg, lit)
+    if isinstance(t, ast.BoolOp):
+        parts = [_dnf(v, neg, lit) for v in t.values]
+        if any(p_ is None for p_ in parts):
+            return None
+        if isinstance(t.op, ast.And) != neg:
+            out = [[]]
+            for p_ in parts:
+                out = [a + b for a in out for b in p_]
+                if len(out) > 64:
+                    return None
+            return out
+        return [c for p_ in parts for c in p_]
+    if isinstance(t, ast.Compare) and len(t.ops) > 1:
+        # a < b <= c is a < b and b <= c (the operands are plain terms, or the literals are not understood anyway)
+        terms = [t.left] + list(t.comparators)
+        return _dnf(ast.BoolOp(op=ast.And(), values=[ast.Compare(left=terms[i], ops=[t.ops[i]], comparators=[terms[i + 1]]) for i in range(len(t.ops))]), neg, lit)
+    l = lit(t, neg)
+    return None if l is None else [[l]]
+
+
+def _display_return(fi, ret, var, size, nper):
+    """(verdict, text) for `return [var]` / `return []` in splitarray"""
+    fn = fi.node
+    cfg = cfg_of(fi)
+    view = cfg.view()
+    rin, _ = view.reaching_defs()
+    rn = rules.node_of_stmt(cfg, ret)
+    if rn is None or not view.reachable(rn):
+        return None, "the return is not reached"
+    elts = ret.value.elts
+    if len(elts) > 1:
+        return None, "more than one chunk written out"
+    if elts:
+        e = elts[0]
+        whole = isinstance(e, ast.Name) and e.id == var
+        if isinstance(e, ast.Subscript) and isinstance(e.value, ast.Name) and e.value.id == var and isinstance(e.slice, ast.Slice) and e.slice.step is None:
+            sx0 = _Sx({var + ".size": size, "len(%s)" % var: size})
+            lo = sx0.ev(e.slice.lower) if e.slice.lower is not None else sp.Integer(0)
+            hi = sx0.ev(e.slice.upper) if e.slice.upper is not None else None
+            whole = _teq(lo, 0) is True and (hi is None or _teq(hi, nper) is True or _teq(hi, size) is True)
+        if not whole:
+            return None, "the element is not the array itself"
+        need = [("<", 0 - size), ("<=", size - nper)]
+    else:
+        need = [("==", size)]
+
+    def term(e, at, depth=0):
+        """integer term of expression e as evaluated at CFG node `at`"""
+        if depth > 8:
+            return None
+        if isinstance(e, ast.Constant):
+            return sp.Integer(e.value) if (isinstance(e.value, int) and not isinstance(e.value, bool)) else None
+        if isinstance(e, ast.Name):
+            defs = rin.get(at.id, {}).get(e.id)
+            if not defs or len(defs) != 1:
+                return None
+            d = next(iter(defs))
+            if d == cfg.entry.id:
+                return nper if e.id == str(nper) else None
+            dn = cfg.node(d)
+            a = dn.ast
+            if dn.kind == "stmt" and isinstance(a, ast.Assign) and len(a.targets) == 1:
+                t_ = a.targets[0]
+                if isinstance(t_, ast.Name):
+                    return term(a.value, dn, depth + 1)
+                if isinstance(t_, (ast.Tuple, ast.List)) and isinstance(a.value, ast.Call) and call_name(a.value) == "divmod" and len(a.value.args) == 2 \
+                        and len(t_.elts) == 2 and all(isinstance(x, ast.Name) for x in t_.elts):
+                    x, y = term(a.value.args[0], dn, depth + 1), term(a.value.args[1], dn, depth + 1)
+                    if x is None or y is None:
+                        return None
+                    return _floordiv(x, y) if t_.elts[0].id == e.id else _fmod(x, y)
+            return None
+        if isinstance(e, ast.Attribute) and e.attr == "size" and isinstance(e.value, ast.Name) and e.value.id == var:
+            return size if is_var(at) else None
+        if isinstance(e, ast.Call) and isinstance(e.func, ast.Name) and e.func.id == "len" and len(e.args) == 1 and not e.keywords \
+                and isinstance(e.args[0], ast.Name) and e.args[0].id == var:
+            return size if is_var(at) else None
+        if isinstance(e, ast.Subscript) and norm(e) == "%s.shape[0]" % var:
+            return size if is_var(at) else None
+        if isinstance(e, ast.Call) and isinstance(e.func, ast.Name) and e.func.id == "int" and len(e.args) == 1 and not e.keywords:
+            return term(e.args[0], at, depth + 1)
+        if isinstance(e, ast.UnaryOp) and isinstance(e.op, (ast.USub, ast.UAdd)):
+            x = term(e.operand, at, depth + 1)
+            return None if x is None else (-x if isinstance(e.op, ast.USub) else x)
+        if isinstance(e, ast.BinOp) and isinstance(e.op, (ast.Add, ast.Sub, ast.Mult, ast.FloorDiv, ast.Mod)):
+            x, y = term(e.left, at, depth + 1), term(e.right, at, depth + 1)
+            if x is None or y is None:
+                return None
+            v_ = _Sx().binop(e, x, y)
+            return v_ if _known(v_) else None
+        return None
+
+    vdefs = rin.get(rn.id, {}).get(var)
+
+    def is_var(at):
+        """the array is bound once on the way, to the binding the return hands back"""
+        return bool(vdefs) and len(vdefs) == 1 and rin.get(at.id, {}).get(var) == vdefs
+
+    def literal_at(at):
+        def lit(t, neg):
+            if isinstance(t, ast.Compare):
+                a, b = term(t.left, at), term(t.comparators[0], at)
+                op = {ast.Lt: "<", ast.LtE: "<=", ast.Gt: ">", ast.GtE: ">=", ast.Eq: "==", ast.NotEq: "!="}.get(type(t.ops[0]))
+                if a is None or b is None or op is None:
+                    return None
+                if neg:
+                    op = {"<": ">=", "<=": ">", ">": "<=", ">=": "<", "==": "!=", "!=": "=="}[op]
+                if op in (">", ">="):
+                    a, b, op = b, a, {">": "<", ">=": "<="}[op]
+                return (op, sp.expand(a - b), norm(t), neg)
+            a = term(t, at)
+            if a is None:
+                return None
+            return ("==" if neg else "!=", a, norm(t), neg)
+        return lit
+    # the path: every test the return depends on
+    path = [[]]
+    for bn, lab in view.controlling_branches(rn):
+        if lab not in ("T", "F"):
+            return None, "reached through `%s`" % bn.text()[:50]
+        if bn.kind == "loop":
+            return None, "reached inside a loop"
+        if bn.kind != "branch":
+            continue
+        d = _dnf(bn.ast.test, lab == "F", literal_at(bn))
+        if d is None:
+            return None, "test `%s` not understood" % norm(bn.ast.test)[:60]
+        path = [a + b for a in path for b in d]
+        if len(path) > 64:
+            return None, "too many cases"
+    if any(n.kind in ("handler", "try") for n in view.dominators(rn)) or any(isinstance(a_, (ast.Try, ast.With, ast.For, ast.While)) for a_ in _ancestors(_parent_map(fn), ret)):
+        return None, "reached inside a try / with / loop"
+    undecided = None
+    for case in _CASES:
+        for conj in path:
+            vals = [_case_literal(op, d, size, nper, case) for op, d, _, _ in conj]
+            if any(v_ is False for v_ in vals):
+                continue                # no input of this case gets here
+            nv = [_case_literal(op, d, size, nper, case) for op, d in need]
+            if all(v_ is True for v_ in nv):
+                continue
+            if all(v_ is True for v_ in vals) and any(v_ is False for v_ in nv):
+                if case == (0, 0):
+                    undecided = undecided or "an empty input gets an empty chunk"
+                    continue
+                return False, "for every input with %s the tests on the way hold (%s), and the chunk list is not `%s` there: %s" \
+                    % (_case_text(case), " and ".join(("not (%s)" % t_) if n_ else t_ for _, _, t_, n_ in conj) or "none",
+                       norm(ret.value), "the array is not empty, so there is at least one chunk" if not elts
+                       else "the array is longer than nper, so it must come back as chunks of nper items (the last possibly shorter), not as one chunk")
+            undecided = undecided or "inputs with %s" % _case_text(case)
+    if undecided:
+        return None, "not decided for " + undecided
+    return True, ""
+
+
+def _ceil_count(count, fi, size, nper, ret=None):
+    """is the loop count ceil(size / nper)?  True / False / None.  ret: the return statement the list is handed back by (tests whose
+    other side never gets there only select the inputs that do)"""
     fn = fi.node
     want = _cdiv(size, nper)
     floor_only = _fdiv(size, nper)
@@ -4315,6 +4828,16 @@ def _ceil_count(count, fi, size, nper):
     if not view.dominates(base[0][0], inc):
         return None
     ctl = [(bn, lab) for bn, lab in view.controlling_branches(inc) if bn.kind == "branch" or (bn.kind == "loop" and isinstance(bn.ast, ast.While))]
+    rn = rules.node_of_stmt(cfg, ret) if ret is not None else None
+    if len(ctl) > 1 and rn is not None:
+        # a test whose other side leaves the function some other way (an early return, a rejection) does not take part in the count of
+        # the inputs that reach the loop -- unless it is the only test there is
+        def leaves(bn, lab):
+            other = [j for j in view.g.successors(bn.id) if lab not in view.g[bn.id][j]["labels"]]
+            return bool(other) and not any(j == rn.id or view._reach_from(j, rn.id, bn.id) for j in other)
+        rest = [c for c in ctl if not leaves(*c)]
+        if len(rest) == 1:
+            ctl = rest
     if len(ctl) != 1 or ctl[0][0].kind != "branch":
         return False if not ctl else None
     r = _nonzero_test(ctl[0][0].ast.test, sx)
@@ -4346,8 +4869,18 @@ def splitarray(chk, repo):
     chk.ob("R20.split", q + "::input-as-array", ok, fi.where(), "the input is viewed as an array (atleast_1d)")
     size, nper = sp.Symbol(v + ".size", integer=True), sp.Symbol(pnper, integer=True)
     rets = [x for x in walk_no_nested(fn) if isinstance(x, ast.Return)]
+    # a return of a list written out in place (`return []`, `return [var]`) is a special case for some inputs: judged on its own below
+    special = [x for x in rets if isinstance(x.value, (ast.List, ast.Tuple)) and len(rets) > 1]
+    rets = [x for x in rets if x not in special]
     seq = _sequence(rets[0].value, fn) if len(rets) == 1 else None
-    okn = _ceil_count(seq[0], fi, size, nper) if seq is not None else None
+    okn = _ceil_count(seq[0], fi, size, nper, rets[0] if special else None) if seq is not None else None
+    if special and okn is False:
+        okn = None                      # the inputs for which the count is off may be the ones that are answered separately
+    for k_, r_ in enumerate(special):
+        v_, why = _display_return(fi, r_, v, size, nper)
+        chk.ob("R20.split", "%s::early-return-is-the-chunk-list::R%d::%s" % (q, k_ + 1, norm(r_.value)[:40]), v_, fi.where(r_),
+               "a list written out in place is returned only for inputs whose chunk list it is: `%s` needs %s on every path that reaches it%s"
+               % (norm(r_), "size == 0" if not r_.value.elts else "0 < size <= nper (one chunk, the whole array)", (": " + why) if why else ""))
     chk.ob("R20.split", q + "::chunk-count-is-ceil", okn, fi.where(), "the number of chunks is size // nper, plus one exactly when size % nper != 0 (ceiling division)")
     oks = None
     if seq is not None and isinstance(seq[1], _Slice) and seq[1].base == v:
